@@ -247,11 +247,88 @@ def encoding_groups(ctx):
     return gs
 
 
+# ---------------------------------------------------------------------------------------------------------------------
+# src/Strings.cc: escapers
+# ---------------------------------------------------------------------------------------------------------------------
+def esc_loop(ix, ok):
+    return """
+__CPROVER_assigns(%(ix)s, g_sc, g_pos, g_pos1, g_olen, g_o0, g_o1, g_o2, g_o3, ret->size, __CPROVER_object_whole(ret->data))
+__CPROVER_loop_invariant(%(ix)s <= s->size && ret->size <= 4 * %(ix)s)
+__CPROVER_loop_invariant((g_k == 0 && %(ix)s != 0) ==> g_pos == 0)
+__CPROVER_loop_invariant(g_k < %(ix)s ==> (g_olen >= 1 && g_olen <= 4 && g_pos + g_olen <= ret->size && g_pos + g_olen == (g_k + 1 < %(ix)s ? g_pos1 : ret->size)))
+__CPROVER_loop_invariant(g_k < %(ix)s ==> (ESC_AT(0) == g_o0 && (g_olen < 2 || ESC_AT(1) == g_o1) && (g_olen < 3 || ESC_AT(2) == g_o2) && (g_olen < 4 || ESC_AT(3) == g_o3)))
+__CPROVER_loop_invariant(g_k < %(ix)s ==> %(ok)s(g_o0, g_o1, g_o2, g_o3, g_olen, g_kch, g_flag))
+__CPROVER_decreases(s->size - %(ix)s)
+""" % dict(ix=ix, ok=ok)
+
+
+def esc_call(ix, call):
+    """ghost bookkeeping around the step: where the code of octet g_k starts, where the next one starts, what was emitted"""
+    return ('if (%(ix)s == g_k) g_pos = ret->size; if (%(ix)s == g_k + 1) g_pos1 = ret->size; g_sc = (uint8_t)s->data[%(ix)s]; '
+            '%(call)s '
+            'if (%(ix)s == g_k) { g_olen = ret->size - g_pos; g_o0 = (uint8_t)ret->data[g_pos]; g_o1 = g_olen >= 2 ? (uint8_t)ret->data[g_pos + 1] : 0; '
+            'g_o2 = g_olen >= 3 ? (uint8_t)ret->data[g_pos + 2] : 0; g_o3 = g_olen >= 4 ? (uint8_t)ret->data[g_pos + 3] : 0; }') % dict(ix=ix, call=call)
+
+
+LIT = r'"(?:[^"\\\n]|\\.)*"'
+# `ret += <expr>;` forms of the escapers, most specific first
+APPEND = [Rule(r'\bret \+= string_printf\((%s), ([^;]*?)\);' % LIT, r'c11_append_printf1(ret, \1, \2);', count=1, regex=True),
+          Rule(r'\bret \+= (%s);' % LIT, r'c11_append_lit(ret, \1, sizeof(\1) - 1);', count=None, regex=True),
+          Rule(r'\bret \+= ch;', 'vstr_push_back(ret, ch);', count=1, regex=True)]
+ESC_FOR = r'\bfor \([^{}]*\)'
+
+
+def escape_units(ctx, src):
+    u = Unit(ctx, 'escape')
+    SQ = r'string escape_quotes\(const string& s\)'
+    SC = r'string escape_controls\(const string& s, bool escape_non_ascii\)'
+    SU = r'string escape_url\(const string& s, bool escape_slash\)'
+    SX = Rule('s[x]', 's->data[x]', count=1)
+    u.block(src, STR, SQ, ESC_FOR, new_header='void escape_quotes_step(vstr* ret, const vstr* s, size_t x)', rules=[SX] + APPEND)
+    u.function(src, STR, SQ, new_header='void escape_quotes(vstr* ret, const vstr* s)',
+               rules=RETSTR + [Rule('s.size()', 'vstr_size(s)', count=1),
+                               Outline(ESC_FOR, esc_call('x', 'escape_quotes_step(ret, s, x);'))],
+               loops={1: esc_loop('x', 'ESC_Q_OK')}, nloops=1)
+    u.block(src, STR, SC, ESC_FOR, new_header='void escape_controls_step(vstr* ret, const vstr* s, size_t x, bool escape_non_ascii)', rules=[SX] + APPEND)
+    u.function(src, STR, SC, new_header='void escape_controls(vstr* ret, const vstr* s, bool escape_non_ascii)',
+               rules=RETSTR + [Rule('s.size()', 'vstr_size(s)', count=1),
+                               Outline(ESC_FOR, esc_call('x', 'escape_controls_step(ret, s, x, escape_non_ascii);'))],
+               loops={1: esc_loop('x', 'ESC_C_OK')}, nloops=1)
+    u.block(src, STR, SU, ESC_FOR, new_header='void escape_url_step(vstr* ret, char ch, bool escape_slash)',
+            rules=[Rule(r'\bisalnum\(', 'c11_isalnum(', count=1, regex=True)] + APPEND)
+    # range-for over the string lowered to an index loop (verif_i); `char ch` is the element copy
+    u.function(src, STR, SU, new_header='void escape_url(vstr* ret, const vstr* s, bool escape_slash)',
+               rules=RETSTR + [Outline(r'\bfor \(char ch : s\)', esc_call('verif_i', 'char ch = s->data[verif_i]; escape_url_step(ret, ch, escape_slash);'),
+                                       new_intro='for (size_t verif_i = 0; verif_i < vstr_size(s); verif_i++)')],
+               loops={1: esc_loop('verif_i', 'ESC_U_OK')}, nloops=1)
+    u.write()
+    return [u]
+
+
+def escape_groups(ctx):
+    H = 'harness/C11/escape.c'
+    gs = []
+    RP = lambda mode: Replay(driver='C11/encoding.cc', mode=mode, sources=ALL_LIB, small_define='VERIF_SMALL')
+    gs.append(Group(name='Strings.escape.spec-prefix-free', harness=H, entry='l_escape_spec', function='reference unescapers (spec macros)', kind='lemma', min_post=2,
+                    clause_note='the length the reference decoders assign to a code depends on its first two octets only (self-delimiting codes)'))
+    for fn, ok in (('escape_quotes', 'ESC_Q_OK'), ('escape_controls', 'ESC_C_OK'), ('escape_url', 'ESC_U_OK')):
+        gs.append(Group(name='Strings.%s.step' % fn, harness=H, entry='h_%s_step' % fn, function='%s (loop body: one input octet)' % fn,
+                        enforce=fn + '_step', timeout=300, stage1=20, replay=RP(fn),
+                        clause_note='contracts/C11_escape.h: the 1..4 octets appended for the input octet satisfy %s (spec/C11_escape.h)' % ok))
+        gs.append(Group(name='Strings.%s' % fn, harness=H, entry='h_' + fn, function=fn, enforce=fn, replace=[fn + '_step'], loops=True,
+                        kind='loop-contract', timeout=600, stage1=20, fallback_unwind=8, replay=RP(fn),
+                        clause_note='contracts/C11_escape.h: the code of input octet g_k lies at g_pos, satisfies %s, and the codes tile the result in input order' % ok))
+    return gs
+
+
 def plan(ctx):
     src = Source(ctx.src)
     units = encoding_units(ctx, src)
     ctx.functions_under_contract = [f for u in units for f in u.functions]
     groups = encoding_groups(ctx)
+    eunits = escape_units(ctx, src)
+    ctx.functions_under_contract += [f for u in eunits for f in u.functions]
+    groups += escape_groups(ctx)
     return groups
 
 
